@@ -47,6 +47,7 @@ type foRec struct {
 	f    *tchannel.Frame
 	get  string
 	rels []string
+	pois bool // poisoned at its first release
 }
 
 type foPool struct {
@@ -56,6 +57,9 @@ type foPool struct {
 	byF     map[*tchannel.Frame]*foRec
 	foreign []string
 	last    time.Time
+	// noPoison: released frames keep their contents (as with the stock sync.Pool), so a stale
+	// reference keeps "working" and a second release through it is recorded
+	noPoison bool
 }
 
 func newFoPool(name string) *foPool {
@@ -111,7 +115,8 @@ func (p *foPool) Release(f *tchannel.Frame) {
 		return
 	}
 	r.rels = append(r.rels, site)
-	if len(r.rels) == 1 {
+	if len(r.rels) == 1 && !p.noPoison {
+		r.pois = true
 		tchannel.VerifPoisonFrame(f)
 	}
 }
@@ -247,7 +252,7 @@ func foJudge(allReleased bool, pools ...*foPool) (codes []int64, verdict string)
 				}
 				add(fmt.Sprintf("%spool %s: frame #%d (obtained in %s) released %d times: %s", tag, p.name, r.id, r.get, len(r.rels), strings.Join(r.rels, ", ")))
 			}
-			if len(r.rels) >= 1 {
+			if len(r.rels) >= 1 && r.pois {
 				if ok, what := tchannel.VerifFramePoisonIntact(r.f); !ok {
 					add(fmt.Sprintf("pool %s: frame #%d (obtained in %s, released in %s) was written after its release (%s damaged)", p.name, r.id, r.get, r.rels[0], what))
 				}
@@ -291,6 +296,7 @@ func (l *foLabels) connSysErr(c int64)           { l.add(8, c, 1, 0) }
 func (l *foLabels) sendMsg(c int64)              { l.add(9, c, 1) }
 func (l *foLabels) newMex(k, c, cap int64)       { l.add(10, k, c, cap) }
 func (l *foLabels) ctx(k int64)                  { l.add(11, k) }
+func (l *foLabels) errN(k int64)                 { l.add(12, k) }
 func (l *foLabels) fetch(k int64, pif, pok bool) { l.add(15, k, b2i(pif), b2i(pok), 1) }
 func (l *foLabels) acc(k int64)                  { l.add(16, k) }
 func (l *foLabels) closeLast(k int64)            { l.add(17, k) }
@@ -1158,7 +1164,7 @@ func pickS(r *rand.Rand, xs ...string) string { return xs[r.Intn(len(xs))] }
 func foObs(codes []int64, verdict string) []int64 {
 	ok := int64(1)
 	if strings.Contains(verdict, "released") && strings.Contains(verdict, "times") || strings.Contains(verdict, "never handed out") ||
-		strings.Contains(verdict, "written after its release") {
+		strings.Contains(verdict, "written after its release") || strings.Contains(verdict, "after handing it back") {
 		ok = 0
 	}
 	return append([]int64{0, ok}, codes...)
@@ -1256,4 +1262,6 @@ func engineFrameOwn(rng *rand.Rand, n int, tier string, o *Out) {
 		}
 		o.Oracle("fo_chaos", fmt.Sprintf("chaos%d", i), true, fmt.Sprintf("%s %d", foChaosKinds[kind], i), verdict)
 	}
+	// directed family (engine_frameown_latch.go); last, so that the cases above keep their seeds
+	foLatchFamily(top, n, o, only, tooMany)
 }
